@@ -37,7 +37,12 @@ def make_runner(h):
     threads (list of lists of (api, arg)), connect)."""
     def run_one(choices):
         sc = S.Sched(choices)
-        steps = [W.HANDSHAKE(h.get('ext', b''))] + list(h.get('steps', []))
+        steps = [W.HANDSHAKE(h.get('ext', b''))]
+        for st in h.get('steps', []):
+            if st == 'COMPRESSED-TEXT':
+                comp = ref_deflate.Peer().compress(('from the server, compressed: ' + 'xyz' * 20).encode())
+                st = ref_ws.enc_frame(ref_ws.TEXT, comp, rsv=4)
+            steps.append(st)
         world = W.World(W.Script(steps, default=W.Silence), max_waits=30)
         world.split_send = True
         world.sched_point = sc.yield_here
